@@ -192,7 +192,7 @@ func (g *gen) Program() string {
 		name := fmt.Sprintf("f%d", i)
 		var src string
 		var sh *shape
-		switch g.r.IntN(18) {
+		switch g.r.IntN(20) {
 		case 9:
 			// disjunction of structs with optional default
 			s1, _ := g.structLit(1, false)
@@ -279,6 +279,31 @@ func (g *gen) Program() string {
 				src = strings.Join(ops, " & ")
 			}
 			sh = &shape{kind: "num"}
+		case 18, 19:
+			// expression over free (non-concrete) variables: stays an expression in the evaluated value;
+			// right-nested operands of the same precedence need parentheses when printed
+			var free []string
+			for _, n := range g.top {
+				if g.shapes[n].kind == "free" {
+					free = append(free, n)
+				}
+			}
+			for len(free) < 3 {
+				vn := fmt.Sprintf("n%d_%d", i, len(free))
+				decls = append(decls, vn+": "+g.pick([]string{"int", "int", "number"}))
+				g.top = append(g.top, vn)
+				g.shapes[vn] = &shape{kind: "free"}
+				free = append(free, vn)
+			}
+			a, b, c := g.pick(free), g.pick(free), g.pick(free)
+			k := fmt.Sprint(1 + g.r.IntN(4))
+			src = g.pick([]string{
+				a + " - (" + b + " - " + c + ")", a + " - (" + b + " + " + c + ")", a + " / (" + b + " / " + k + ")", a + " * (" + b + " + " + c + ")",
+				"(" + a + " + " + b + ") * " + c, a + " - " + b + " - " + c, "(" + a + " < " + b + ") == (" + b + " < " + c + ")", a + " + " + b + " * " + c,
+				"-(" + a + " - " + b + ")", "<(" + a + " - (" + b + " - " + k + "))", ">=" + a + " & <=(" + b + " + (" + c + " * " + k + "))", a + " - (" + b + " - (" + c + " - " + k + "))",
+				"div(" + a + ", " + k + ") - (" + b + " - " + c + ")", "[" + a + " - (" + b + " - " + c + "), " + a + "]", "{v: " + a + " - (" + b + " - " + c + ")}",
+			})
+			sh = &shape{kind: "other"}
 		case 0, 1, 2:
 			src, sh = g.scalar()
 		case 3, 4:
